@@ -11,6 +11,8 @@ Rules added to py2mini's fragment by RenderTranslator:
   F1  an f-string whose parts are `{e:<spec>}` with <spec> = one of < > followed by `{width expression}`:
       f'{a:>{w}}{b:<{v}}' -> fstr(format:>(a, w), format:<(b, v))   (primitives "fstr", "format:>", "format:<":
       Model/PrimsRender.v, from Render.v's rjust / ljust / py_str).
+  F2  an f-string part `{e:%...}` with a CONSTANT format spec that starts with % (CostRenderer.format: `{value.date:%Y-%m-%d}`)
+      -> XPrim "format:spec" [e; spec]   (format(date, spec) = date.strftime(spec); Model/PrimsRenderCost.v).
 Everything else fails closed with py2mini.Untranslatable."""
 import ast
 import enum
@@ -68,6 +70,10 @@ class RenderTranslator(py2mini.FuncTranslator):
                     continue
                 if not isinstance(v, ast.FormattedValue) or v.conversion != -1 or not isinstance(v.format_spec, ast.JoinedStr):
                     raise Untranslatable('f-string part that is not {value:<align>{width}}')
+                if len(v.format_spec.values) == 1 and isinstance(v.format_spec.values[0], ast.Constant) \
+                        and isinstance(v.format_spec.values[0].value, str) and v.format_spec.values[0].value.startswith('%'):   # F2
+                    parts.append(f'(XPrim "format:spec" [{self.expr(v.value)}; {self.const(v.format_spec.values[0].value)}])')
+                    continue
                 spec = [x for x in v.format_spec.values if not (isinstance(x, ast.Constant) and x.value == '')]
                 if not (len(spec) == 2 and isinstance(spec[0], ast.Constant) and spec[0].value in ('<', '>')
                         and isinstance(spec[1], ast.FormattedValue) and spec[1].conversion == -1
@@ -280,6 +286,19 @@ def spec_render():
         out.append((f'render_{short}_prepare_head', cls.__dict__['prepare'],
                     f'{q}.prepare without its last statement `return super().prepare()`', True))
         out.append((f'render_{short}_format', cls.__dict__['format'], f'{q}.format', False))
+    # CostRenderer (bld-render4): derives from ObjectRenderer, which must add nothing to ColumnRenderer's __init__ / prepare
+    # (so `super().__init__(ctx)` / `super().prepare()` ARE ColumnRenderer's, tied above)
+    if qr.CostRenderer.__mro__[1:3] != (qr.ObjectRenderer, qr.ColumnRenderer):
+        raise Untranslatable('CostRenderer no longer derives from ObjectRenderer < ColumnRenderer')
+    if '__init__' in qr.ObjectRenderer.__dict__:
+        raise Untranslatable('ObjectRenderer overrides __init__')
+    q = 'beanquery.query_render.CostRenderer'
+    out.append(('render_cost_init_tail', qr.CostRenderer.__dict__['__init__'],
+                f'{q}.__init__ without its first statement `super().__init__(ctx)`', 'tail'))
+    out.append(('render_cost_update', qr.CostRenderer.__dict__['update'], f'{q}.update', False))
+    out.append(('render_cost_prepare_head', qr.CostRenderer.__dict__['prepare'],
+                f'{q}.prepare without its last statement `return super().prepare()`', True))
+    out.append(('render_cost_format', qr.CostRenderer.__dict__['format'], f'{q}.format', False))
     return out
 
 
